@@ -74,7 +74,11 @@ let check_digits ~(p : int) ~(slack : bool) (digits : string) (v : qc) : bool =
    String.length plain <= 17 &&
    (let n = int_of_string plain in
     let d = qcmult q_two (qcminus (qi n) (qcmult v (qi (ipow10 p)))) in
-    let bound = if slack then qcplus (qi 1) tol else qi 1 in
+    (* slack (normalised rows): the shown number is the f64 quotient, whose rounding error is relative (2^-53 of the
+       quotient), i.e. up to 2*|v|*10^p*2^-52 half-digits for large magnitudes, plus 2^-30 for small ones *)
+    let two_m52 = qfrac (z_of_int 1) (pos_of_int (1 lsl 52)) in
+    let rel = qcmult (qcmult q_two (qcmult (qabs v) (qi (ipow10 p)))) two_m52 in
+    let bound = if slack then qcplus (qi 1) (qcplus tol rel) else qi 1 in
     qleb (qcopp bound) d && qleb d bound))
 
 (* ---------------------------------------------------------------- options *)
